@@ -163,7 +163,7 @@ func init() {
 			}
 		}})
 
-	register(&Rule{ID: "C16.validate", Props: []string{"C16"}, Floor: 16,
+	register(&Rule{ID: "C16.validate", Props: []string{"C16", "C17"}, Floor: 16,
 		Doc: "values persisted into asset parameters satisfy the validity constraints at the persist point",
 		Run: func(e *Engine, r *RuleRun) {
 			type site struct{ fn, callee string }
@@ -359,15 +359,15 @@ func init() {
 					"keeper.Keeper.RewardWeightChangeHook": "decay step (C14.clamp)",
 				},
 				"keeper.Keeper.SetAsset": {
-					"keeper.Keeper.InitializeAllianceAssets":      "sets IsInitialized",
-					"keeper.Keeper.UpdateAllianceAsset":           "whitelisted update (C16.whitelist)",
-					"keeper.Keeper.DeductAssetsWithTakeRate":      "take rate (C01.pair.takerate)",
-					"keeper.Keeper.Delegate":                      "C01.pair.delegate",
-					"keeper.Keeper.Undelegate":                    "C01.pair.undelegate",
-					"keeper.Keeper.ResetAssetAndValidators":       "dust reset (C03.reset)",
-					"keeper.Keeper.SlashValidator":                "C06.scale",
-					"keeper.MsgServer.CreateAlliance":             "new asset (C16.once)",
-					"keeper.Keeper.InitGenesis":                   "genesis import",
+					"keeper.Keeper.InitializeAllianceAssets":          "sets IsInitialized",
+					"keeper.Keeper.UpdateAllianceAsset":               "whitelisted update (C16.whitelist)",
+					"keeper.Keeper.DeductAssetsWithTakeRate":          "take rate (C01.pair.takerate)",
+					"keeper.Keeper.Delegate":                          "C01.pair.delegate",
+					"keeper.Keeper.Undelegate":                        "C01.pair.undelegate",
+					"keeper.Keeper.ResetAssetAndValidators":           "dust reset (C03.reset)",
+					"keeper.Keeper.SlashValidator":                    "C06.scale",
+					"keeper.MsgServer.CreateAlliance":                 "new asset (C16.once)",
+					"keeper.Keeper.InitGenesis":                       "genesis import",
 					"migv4.migrateAssetsWithDefaultRewardWeightRange": "v4 migration",
 				},
 				"keeper.Keeper.SetLastRewardClaimTime": {
